@@ -1198,6 +1198,20 @@ impl StepMode {
                     if v == 0 || v > 63 {
                         // ignored vectors: the (tagged) vector table must stay as it is; interrupt a neighbour instead
                         c.irq = Some(vec![(1, rng.range(1, 63) as u8)]);
+                    } else if rng.chance(1, 3) {
+                        // the request is already queued (and masked) when the handler is installed: it must stay queued, and
+                        // once the program unmasks (ANDC #H'7F,CCR behind the call) it enters the new handler
+                        c.ccr |= 0x80;
+                        let other = rng.range(1, 63) as u8;
+                        c.irq = Some(match rng.below(3) {
+                            0 => vec![(0, v as u8)],
+                            1 => vec![(0, other), (0, v as u8)],
+                            _ => vec![(0, v as u8), (0, other)],
+                        });
+                        if rng.chance(1, 2) {
+                            c.put_words(c.pc + 2, &[0x067f]);
+                            c.n = 2;
+                        }
                     }
                 }
                 _ => {
